@@ -694,7 +694,11 @@ pub fn build_sprite(t: &mut Tape, c: &GenCfg) -> Sprite {
                 }
                 other => other,
             };
-            cels.push(Cel { layer: l as u16, x, y, opacity: if occluder { 255 } else { t.u8_biased() }, content, user_data: if c.user_data { t.opt_user_data(1, 5) } else { None } });
+            // occluders are mostly, not always, at full cel opacity; a link's own opacity byte is often the default
+            // 255 whatever its target carries
+            let is_link = matches!(content, CelContent::Link { .. });
+            let cel_opacity = if occluder && t.chance(2, 3) { 255 } else if is_link && t.chance(1, 2) { 255 } else { t.u8_biased() };
+            cels.push(Cel { layer: l as u16, x, y, opacity: cel_opacity, content, user_data: if c.user_data { t.opt_user_data(1, 5) } else { None } });
         }
         s.frames.push(Frame { duration, cels });
     }
